@@ -171,7 +171,9 @@ def run_case(kind, q):
                     # compared by this rule only
                     tied = np.zeros(len(peaks), dtype=bool)
                     ca, cb = np.asarray(res["centers"].data[f]), np.asarray(ref[f][0])
-                    if ca.shape == cb.shape and np.any(ca != cb):
+                    # (a constant frame log-scales to exact zeros and its correlation map is exactly zero in any float arithmetic:
+                    # nothing is rounded there, the stand-alone result is what it is, and no difference is excused)
+                    if ca.shape == cb.shape and np.any(ca != cb) and np.ptp(np.asarray(frames[f], dtype=np.float64)) > 0:
                         import refimpl
                         z_ = np.zeros(2) if zs is None else (np.asarray(zs) if np.ndim(zs) == 1 else np.asarray(zs)[f])
                         pk_ = np.round(peaks).astype(int) + np.round(z_).astype(int)
